@@ -21,6 +21,7 @@ type funcExt struct {
 	segment bool
 	inputs  []string // binders of the input parameters, in the order of their call sites
 	seen    map[*ast.CallExpr]string
+	seenVar map[*ast.Ident]string // segfail.go: the reads of input variables
 }
 
 // Segment asks for the translation of a pure run of statements in the middle of a function
